@@ -127,11 +127,86 @@ def run(prog: Program, rep: Report, tier: str):
     bounds(prog, rep)
     units(prog, rep)
     call_units(prog, rep)
+    size_fresh(prog, rep)
     ctx_truth(prog, rep)
     paired(prog, rep)
     inverse_patterns(prog, rep)
     norm_identity(prog, rep)
     names.check(prog, rep, FILES, clause="C14.G1", floor=50)
+
+
+def size_fresh(prog: Program, rep: Report):
+    """A measured extent must describe the image as it is where the extent is used."""
+    rep.rule("G6.size-fresh", "in the geometry transforms an extent measured with get_image_size / get_dimensions is only used while it "
+             "still describes the image: between the measurement and the use the measured variable is not re-bound by an operation "
+             "that changes that axis (pad with a non-zero amount on the axis, resize, crop).  A size read before an explicit "
+             "padding makes pad_if_needed pad a second time and the recorded crop box index a larger image")
+    SIZE_CHANGING = {"pad", "resize", "crop", "center_crop", "resized_crop", "interpolate"}
+    n_meas = 0
+    for mod in FILES:
+        m = prog.by_relpath.get(mod)
+        if m is None or not mod.startswith("kappadata/transforms/"):
+            continue
+        for fi in prog.functions_in(m) if hasattr(prog, "functions_in") else [f for f in prog.all_functions() if f.module is m]:
+            src = ast.unparse(fi.node)
+            if "get_image_size" not in src and "get_dimensions" not in src:
+                continue
+            fa = fa_of(prog, fi)
+            cfg = fa.cfg
+            for M, nd in cfg.nodes.items():
+                st = nd.ast if nd.kind == "stmt" else None
+                if not (isinstance(st, ast.Assign) and isinstance(st.value, ast.Call) and isinstance(st.targets[0], ast.Tuple)):
+                    continue
+                fn_ = st.value.func
+                nm = fn_.id if isinstance(fn_, ast.Name) else (fn_.attr if isinstance(fn_, ast.Attribute) else None)
+                if nm not in ("get_image_size", "get_dimensions") or not st.value.args or not isinstance(st.value.args[0], ast.Name):
+                    continue
+                img = st.value.args[0].id
+                elts = [(_n(e)) for e in st.targets[0].elts]
+                axes = dict(zip(elts, ("W", "H"))) if nm == "get_image_size" and len(elts) == 2 else (
+                    dict(zip(elts[-2:], ("H", "W"))) if nm == "get_dimensions" and len(elts) >= 2 else {})
+                axes.pop(None, None)
+                if not axes:
+                    continue
+                n_meas += 1
+                img_defs_at_M = cfg.reaching().get(M, {}).get(img, set())
+                stale = []
+                for U in sorted(cfg.nodes):
+                    if U == M or not cfg.reachable(M, U):
+                        continue
+                    used = {y.id for e in cfg.all_exprs(U) for y in ast.walk(e) if isinstance(y, ast.Name) and isinstance(y.ctx, ast.Load)
+                            and y.id in axes and cfg.reaching().get(U, {}).get(y.id, set()) == {M}}
+                    if not used:
+                        continue
+                    for R in cfg.reaching().get(U, {}).get(img, set()) - img_defs_at_M:
+                        rs = cfg.nodes[R].ast if cfg.nodes[R].kind == "stmt" else None
+                        v = rs.value if isinstance(rs, ast.Assign) else None
+                        if not (isinstance(v, ast.Call) and cfg.reachable(M, R)):
+                            continue
+                        f2 = v.func
+                        op = f2.id if isinstance(f2, ast.Name) else (f2.attr if isinstance(f2, ast.Attribute) else None)
+                        if op not in SIZE_CHANGING:
+                            continue
+                        affected = {"W", "H"}
+                        pad_e = v.args[1] if len(v.args) >= 2 else next((k.value for k in v.keywords if k.arg == "padding"), None)
+                        pad_arg = fa.expand(pad_e, R) if op == "pad" and pad_e is not None else None
+                        if op == "pad" and isinstance(pad_arg, (ast.List, ast.Tuple)):
+                            amt = pad_arg.elts
+                            zero = lambda e: isinstance(e, ast.Constant) and e.value == 0
+                            if len(amt) == 2:
+                                affected = ({"W"} if not zero(amt[0]) else set()) | ({"H"} if not zero(amt[1]) else set())
+                            elif len(amt) == 4:
+                                affected = ({"W"} if not (zero(amt[0]) and zero(amt[2])) else set()) | (
+                                    {"H"} if not (zero(amt[1]) and zero(amt[3])) else set())
+                        for u in sorted(used):
+                            if axes[u] in affected:
+                                stale.append((u, fa.line(U), fa.line(R), op))
+                o = rep.decide(not stale, "G6.size-fresh", fi, f"measure:{','.join(sorted(axes))}@{nm}",
+                               "every use sees the image as it was measured (on the used axis)",
+                               "; ".join(f"'{u}' (measured at line {fa.line(M)}) is used at line {lu} after the image was changed by "
+                                         f"{op}(...) at line {lr}" for u, lu, lr, op in stale[:2]) +
+                               ": the extent no longer describes the image", line=fa.line(M), clause="C14.1")
+    rep.floor("extent measurements in geometry transforms", n_meas, 3)
 
 
 # ----------------------------------------------------------------------------------------------------------------------
